@@ -184,8 +184,8 @@ fn flatten_job(key: K, form: Form, len: usize) -> Job {
 
 pub fn plan(tier: Tier) -> Plan {
   let len = match tier {
-    Tier::Quick => 5,
-    Tier::Thorough => 7,
+    Tier::Quick => 6,
+    Tier::Thorough => 8,
   };
   let mut jobs = vec![];
   for key in K::ALL {
